@@ -93,3 +93,12 @@ Proof.
   split; [intros a b H; Lia.lia|]. split; [intros a b H; Lia.lia|].
   split; vm_compute; reflexivity.
 Qed.
+
+(* Kruskal-Wallis H is invariant under NEGATION (any strictly decreasing re-encoding) of the feature:
+   every sample size, any ties, any number of groups (labels/groups a well-formed partition) *)
+From AC.Proofs Require Import KruskalNegProofs.
+Theorem C15_kruskal_invariant_under_negation : forall (psi : Z -> Z) (xs : list Z) (lab groups : list nat),
+  SelectorProofs.decreasing psi -> List.length lab = List.length xs -> NoDup groups -> incl lab groups ->
+  kruskal_H (CheckC15.kruskal_stat (map psi xs) lab groups) = kruskal_H (CheckC15.kruskal_stat xs lab groups).
+Proof. exact kruskal_neg. Qed.
+Print Assumptions C15_kruskal_invariant_under_negation.
